@@ -4,3 +4,4 @@ pub mod group;
 pub mod slotmap;
 pub mod slots;
 pub mod shapes;
+pub mod parse;
